@@ -78,6 +78,21 @@ def wrapper(case):
             got = obj(xx)
             if not np.allclose(got, dfun(xx), rtol=1e-5, atol=1e-5):
                 bad.append(dict(what='%s object called again after x was updated in place' % klass, method=method, x=xx.tolist(), got=np.asarray(got).tolist(), expected=dfun(xx).tolist()))
+    # the method attribute is read at the time of the call: an object built for one method and switched to another behaves like a
+    # fresh object of the new method
+    for klass, f in (('Jacobian', lambda z: np.array([np.abs(z[0]) * z[1], z[0] + 3.0 * z[1]])), ('Gradient', lambda z: np.abs(z[0]) * z[1] + z[1] ** 2)):
+        xx = np.array([0.5, 1.5])
+        for m0, m1 in (('complex', 'central'), ('forward', 'complex'), ('central', 'forward')):
+            seen = []
+            g = lambda z: (seen.append(np.iscomplexobj(z)), f(z))[1]
+            obj = getattr(ns, klass)(g, method=m0)
+            obj.method = m1
+            got = obj(xx)
+            used_complex = any(seen)
+            fresh = getattr(ns, klass)(f, method=m1)(xx)
+            if used_complex != (m1 == 'complex') or not np.array_equal(np.asarray(got), np.asarray(fresh)):
+                bad.append(dict(what='%s built with method=%r, then obj.method = %r' % (klass, m0, m1), evaluated_at_complex_points=bool(used_complex),
+                                got=np.asarray(got).tolist(), fresh_object_of_the_new_method=np.asarray(fresh).tolist()))
     # array bounds for every number of variables (two variables included): evaluation stays in the box, feasible points are accepted
     for n in (1, 2, 3, 4):
         lo = np.arange(n, dtype=float); hi = lo + 1.0 + 0.5 * np.arange(n)
